@@ -35,6 +35,7 @@ MIN_NONTRIVIAL_FRACTION = 0.2
 RULE += ' Added after the seeded rounds: Clock gaps from 0.25 s to 40 days, limits from 30 s to 25 h; 1/30 of the histories repeat one call 1001+ times (bound of the event log).'
 RULE += ' Phase-change / senescence handlers optionally call back into the lifecycle that notifies them (keep-alive heartbeat(), get_status(), get_statistics()): the triggering call must still return (lock shim reports re-acquisition).'
 RULE += ' Round 7: a `decoy` (pbt/props/_decoys.py): a second object of the class, differently configured and put through a misleading script (same prompts / names / ids, opposite verdicts and limits), is built in the same process after the object under test.'
+RULE += " Round 10: a third of the generated lifecycles are built with silent=False (the constructor default; output captured): printing is not behaviour."
 EXHAUSTIVE_NOTE = {"quick": "all op sequences of length 1..3 over 16 ops x 4 configurations (4*(16+256+4096) = 17472 histories), complete",
                    "thorough": "all op sequences of length 1..4 over 16 ops x 4 configurations (279616 histories), complete"}
 
@@ -79,7 +80,7 @@ _rep = st.tuples(st.just("rep"), st.sampled_from([1001, 1010]), st.sampled_from(
 def strategy(tier):
     plain = st.lists(_op, min_size=1, max_size=25)
     long = st.tuples(st.lists(_op, max_size=5), _rep, st.lists(_op, min_size=1, max_size=8)).map(lambda t: t[0] + [t[1]] + t[2])
-    return _decoys.with_decoy(st.fixed_dictionaries({"cfg": _cfg, "ops": st.integers(0, 29).flatmap(lambda k: long if k == 0 else plain)}))
+    return _with_loud(_decoys.with_decoy(st.fixed_dictionaries({"cfg": _cfg, "ops": st.integers(0, 29).flatmap(lambda k: long if k == 0 else plain)})))
 
 
 _ENUM_CFG = [
@@ -115,7 +116,7 @@ LEGAL = {
 }
 
 
-def judge(case):
+def _judge_case(case):
     import operon_ai.state.telomere as tel
     out = Outcome()
     clock = VirtualClock()
@@ -143,7 +144,7 @@ def _judge(case, out, clock, tel):
 
     t = tel.Telomere(max_operations=cfg["max_ops"], max_lifetime_hours=cfg["lifetime_h"], idle_timeout_minutes=cfg["idle_min"],
                      error_threshold=cfg["err_thr"], allow_renewal=cfg["renewal"],
-                     on_phase_change=on_phase, on_senescence=lambda reason: look_back(), silent=True)
+                     on_phase_change=on_phase, on_senescence=lambda reason: look_back(), silent=not case.get("loud"))
     holder.append(t)
     if case.get("decoy"):
         _decoys.lifecycle(case["decoy"], tel)
@@ -298,3 +299,19 @@ def _judge(case, out, clock, tel):
                         return
         if name != "check":
             t_last = now
+
+
+def _with_loud(strat):
+    """a third of the generated cases build the object with silent=False (the constructor default): what it prints goes to a scratch buffer"""
+    return st.tuples(strat, st.sampled_from([False, False, True])).map(lambda t: dict(t[0], loud=True) if t[1] else t[0])
+
+
+def judge(case):
+    import contextlib
+    import io
+    if not case.get("loud"):
+        return _judge_case(case)
+    with contextlib.redirect_stdout(io.StringIO()):
+        out = _judge_case(case)
+    out.label("silent=False")
+    return out
